@@ -40,7 +40,7 @@ from bounded import _c13_oracle as O
 
 RULE = ("P (pipeline scenarios): a 4-gene linear record and a 3-gene circular record with a gene next to the origin; "
         "every gene gets one of the hit sets (none, a, c, a+b apart) and, in at most one gene, the equal-score "
-        "overlapping pair a/b of equivalent profiles (453 scenarios; thorough: 7 hit sets everywhere, 2,742); 5 rules "
+        "overlapping pair a/b of equivalent profiles (453 scenarios + 56 equal-start ones; thorough: 7 hit sets everywhere, 2,742 + 112); 5 rules "
         "of which ra/rb/rab and rc/rac yield protoclusters with identical coordinates.  Each scenario runs "
         "detection -> protoclusters -> candidate clusters -> regions -> GenBank -> JSON in child processes with "
         "PYTHONHASHSEED 0..7 (thorough 0..15) and in-process under 4 (thorough 8) permutations of the iteration order "
